@@ -479,6 +479,20 @@ fn emit_fn(out: &mut Value, req: &Value, sig: &Signature, block: &Block, impl_hd
                     other => other,
                 };
                 let mut stmts = vec![st];
+                // N11 (loop body): `slice_body=1` takes the body of the found `for` statement instead of the statement
+                if req["slice_body"].as_bool().unwrap_or(false) {
+                    let body = match &stmts[0] {
+                        Stmt::Expr(Expr::ForLoop(f), _) => Some(f.body.stmts.clone()),
+                        _ => None,
+                    };
+                    match body {
+                        Some(b2) => stmts = b2,
+                        None => {
+                            out["error"] = json!("LOST-ANCHOR slice_body: the sliced statement is not a for loop");
+                            return;
+                        }
+                    }
+                }
                 // N11b: carry the enclosing `let`s the slice depends on (beyond the parameters of the slice signature)
                 if let Some(sigtxt) = req["slice_sig"].as_str() {
                     if let Ok(f) = syn::parse_str::<ItemFn>(&format!("{} {{}}", sigtxt)) {
